@@ -283,8 +283,20 @@ class Live:
                 m.clear_modalities()
                 self.mods = []
             elif k == "set_distribution":
-                m.set_distribution(op["t"], dist_arg(m, op["dist"]))
-                self.dists[op["t"]] = copy.deepcopy(op["dist"])
+                arg, shadow = None, op["dist"]
+                if op.get("from") is not None:
+                    # pass the LIVE Distribution object held by another instance / T-stage (set_distribution must copy it);
+                    # the shadow is the SOURCE's shadow at this moment (a shrunk history may have changed it)
+                    j, t2 = op["from"]
+                    try:
+                        src_live = Live.registry[j]
+                        cand = src_live.model.get_distribution(t2)
+                        if cand.is_updateable and src_live.model.max_time == m.max_time and "fam" in src_live.dists.get(t2, {}):
+                            arg, shadow = cand, src_live.dists[t2]
+                    except Exception:  # noqa: BLE001
+                        arg = None
+                m.set_distribution(op["t"], arg if arg is not None else dist_arg(m, shadow))
+                self.dists[op["t"]] = copy.deepcopy(shadow)
             elif k == "del_distribution":
                 m.del_distribution(op["t"])
                 self.dists.pop(op["t"], None)
@@ -429,6 +441,7 @@ def check_py(case, fresh_memo=None, stop_first=True):
     """Run a history on live models; returns a list of mismatch dicts (empty = property holds on this history)."""
     reset_module_caches()
     lives = [Live(sp) for sp in case["instances"]]
+    Live.registry = lives
     bad = []
     for k, op in enumerate(normalise(case)):
         lv = lives[op["i"]] if "i" in op else lives[0]
@@ -625,6 +638,7 @@ def py_view(m):
 def impl_fn(case):
     reset_module_caches()
     lives = [Live(sp) for sp in case["instances"]]
+    Live.registry = lives
     outs = []
     for op in normalise(case):
         lv = lives[op.get("i", 0)]
@@ -915,6 +929,14 @@ def gen_op(rng, gs: GState, i, coq: bool):
     if r < 0.66:
         t = rng.choice(STAGES[:2] if rng.random() < 0.9 else STAGES)
         d = gen.gen_dist(rng, gs.mt)
+        if not coq and rng.random() < 0.35:
+            cands = [(j, t2) for j, g2 in enumerate(getattr(gs, "all", [])) for t2, d2 in g2.dists.items()
+                     if "fam" in d2 and g2.mt == gs.mt and g2.spec["cls"] != "HPVUnilateral"]
+            if cands:
+                j, t2 = rng.choice(cands)
+                d = copy.deepcopy(gs.all[j].dists[t2])
+                gs.dists[t] = d
+                return {"op": "set_distribution", "i": i, "t": t, "dist": d, "from": [j, t2]}
         gs.dists[t] = d
         return {"op": "set_distribution", "i": i, "t": t, "dist": d}
     if r < 0.70:
@@ -972,8 +994,17 @@ def gen_param_kw(rng, gs, coq):
                 kw[n] = gs.value(rng, n)
     else:
         names = gs.names
-        for n in rng.sample(names, rng.randint(0, len(names))):
-            kw[n] = gs.value(rng, n)
+        r2 = rng.random()
+        if names and r2 < 0.3:
+            kw[rng.choice(names)] = None                                  # a single parameter
+        elif names and r2 < 0.6:                                          # the parameters of one prefix group (ipsi_*, contra_*, ...)
+            grp = rng.choice(sorted({n.split("_")[0] for n in names}))
+            for n in [n for n in names if n.split("_")[0] == grp]:
+                kw[n] = None
+        else:
+            for n in rng.sample(names, rng.randint(0, len(names))):
+                kw[n] = None
+        kw = {n: gs.value(rng, n) for n in kw}
     prev = {}
     for t, d in gs.dists.items():
         if "fam" in d and rng.random() < 0.5:
@@ -1030,6 +1061,8 @@ def gen_history(rng, classes, nops, coq):
             sp["graph"] = copy.deepcopy(specs[0]["graph"])
     pool = {}
     gss = [GState(sp, param_names(sp), pool) for sp in specs]
+    for g_ in gss:
+        g_.all = gss
     ops = []
     # a short set-up so that most queries are meaningful, in random order and not always complete
     for i, gs in enumerate(gss):
